@@ -301,7 +301,7 @@ def run(ctx):
     res = tlc.run('MC_Validate', MC_CFG % (3, 'full'), coverage=not q, timeout=3400)
     ctx.add_mc('MC_Validate(3 names, full pool)', res)
     if not q:
-        res = tlc.run('MC_Validate', MC_CFG % (4, 'pruned'), coverage=True, timeout=3400)
+        res = tlc.run('MC_Validate', MC_CFG % (4, 'tiny'), coverage=True, timeout=3400)
         ctx.add_mc('MC_Validate(4 names, pruned pool)', res)
     # negative control: the walkers as originally shipped (no descent into "not") must be caught
     neg = tlc.run('MC_Validate', (MC_CFG % (2, 'full')).replace('INVARIANT InvReportExact\nINVARIANT InvCleanTerminates\n', 'INVARIANT NegShippedWalkers\n'), timeout=3400)
